@@ -104,7 +104,7 @@ def classify(trace_path, own_kinds):
 def shrink(l1, prop, hist, want, budget_s=60):
     """delta debugging on the op list; `want(result)` says whether the failure is preserved"""
     t0 = time.time()
-    d = os.path.join(C.WORK, prop, "shrink")
+    d = os.path.join(C.WORK, prop + C.RTAG, "shrink")
     os.makedirs(d, exist_ok=True)
     def test(ops):
         hp, tp = os.path.join(d, "h.hist"), os.path.join(d, "t.txt")
@@ -152,7 +152,7 @@ def run(pid, tier, spec):
     """spec: dict(profile, n_quick, n_thorough, len_thorough, own_kinds, rule, level_note, extra_assumptions)"""
     t0 = time.time()
     out_lines = []
-    with C.Lock():
+    with C.Lock("build"):
         bad = C.grep_forbidden()
         if bad:
             print("INTERNAL: forbidden vernacular in the Coq development:\n" + "\n".join(bad))
@@ -164,7 +164,10 @@ def run(pid, tier, spec):
             print("INTERNAL: oracle build failed\n" + ora_log[-3000:])
             return 2
         h_ok, h_log, l1 = C.build_harness("l1")
+        if not coq_ok:
+            coq_ok, badfiles = C.coq_ok_for("Properties/%s.v" % pid)
         pinfo = C.property_file_info(pid) if coq_ok else {"ok": False, "theorems": [], "examples": [], "closed": 0, "axioms": [], "log": coq_log[-3000:]}
+    with C.Lock("run-" + pid):
 
         tie_broken = []       # names of what no longer checks
         if not tr_ok:
@@ -183,7 +186,7 @@ def run(pid, tier, spec):
         if not h_ok:
             tie_broken.append("harness build: the verif hooks no longer fit the code: " + h_log[-600:])
 
-        wd = os.path.join(C.WORK, pid)
+        wd = os.path.join(C.WORK, pid + C.RTAG)
         os.makedirs(wd, exist_ok=True)
         findings_printed, viol_reported = set(), False
         total_hist = total_events = 0
@@ -299,13 +302,13 @@ def run(pid, tier, spec):
         return 1 if viol_reported else 0
 
 def replay(pid, path):
-    with C.Lock():
+    with C.Lock("build"):
         C.run_translator(); C.coq_make()
         ok, log = C.build_oracle()
         h_ok, h_log, l1 = C.build_harness("l1")
         if not (ok and h_ok):
             print("INTERNAL: build failed\n" + (log if not ok else h_log)[-2000:]); return 2
-        tp = os.path.join(C.WORK, pid, "replay.trace")
+        tp = os.path.join(C.WORK, pid + C.RTAG, "replay.trace")
         os.makedirs(os.path.dirname(tp), exist_ok=True)
         rc, o = C.sh([l1, "replay", "-in", path, "-out", tp])
         if rc != 0:
